@@ -99,6 +99,12 @@ def load(
         lazy_file_reading=lazy,
         verbose=False,
     )
+    if os.environ.get("HV_TRIM_LOG") == "1":
+        # a user who does not want charge / load events in the event log (a pure logging choice)
+        from nrel.hive.reporting.report_type import ReportType
+
+        gc = gc._replace(log_sim_config=frozenset(t for t in gc.log_sim_config
+                                                  if t not in (ReportType.VEHICLE_CHARGE_EVENT, ReportType.STATION_LOAD_EVENT)))
     sim_cfg = config.sim
     if sim_overrides:
         so = dict(sim_overrides)
